@@ -16,14 +16,13 @@ import itertools
 import json
 from pathlib import Path
 
-from . import core, local_known
+from . import core
 from . import flat_export as fe
 from .c15 import neutralise, SEEDS, ADVERSARIAL_SEEDS, ALL_FEATURES
 
 CONSTANT_TYPES = {"Num", "Str", "Bytes", "NameConstant", "Ellipsis"}
 
 SIG = {
-    "bytes-repr-double-quoted": "C01:bytes-constant-whose-repr-starts-with-b\"",
     "str-contains-/kind=": "C01:str-constant-containing-/kind=",
     "bytes-contains-/kind=": "C01:bytes-constant-containing-/kind=",
     "str-contains-_pos=": "C01:str-constant-containing-_pos=",
@@ -516,7 +515,7 @@ def run(ctx):
         "CPython's parser and line numbers",
     ]
     ctx.assumptions += ["model alphabet for \\w and int(): ASCII", "Tree.WF (checked on every exported tree by the C01 theorem's Bool form)"]
-    if not local_known.unexplained(ctx) and (not ctx.proofs_ok or ctx.broken):
+    if not fe.unexplained(ctx, core) and (not ctx.proofs_ok or ctx.broken):
         ctx.violations.append({
             "no_input": True,
             "what": "a proof or the correspondence no longer checks",
@@ -526,7 +525,6 @@ def run(ctx):
                                    "(both cleanup strategies): `node:` labels equal the specification on every program explored"},
         })
     ctx.broken = sorted(set(ctx.broken))
-    local_known.apply(ctx)
     return core.finish(ctx)
 
 
